@@ -132,7 +132,7 @@ pub fn signature(steps: &[Step], with_handles: bool) -> u64 {
                 | Step::Drop { h }
                 | Step::Observe { h, .. }
                 | Step::ObserveDebug { h, .. } => *h,
-                Step::Take { src, .. } | Step::Clone { src, .. } => *src,
+                Step::Take { src, .. } | Step::Clone { src, .. } | Step::CloneFrom { src, .. } => *src,
                 Step::ObserveEq { a, .. } => *a,
                 Step::Check => 0,
             };
